@@ -145,7 +145,7 @@ ReadyAfter(t, ms) ==
 
 \* write readiness: sockets used by Send are always writable (pseudo fd per task)
 WFd(t) == IF t = 1 THEN "w1" ELSE IF t = 2 THEN "w2" ELSE "w3"
-IsW(f) == f \in {"w1", "w2", "w3"}
+IsW(f) == f \in {"w1", "w2", "w3", "wa"}      \* "wa": write side of the shared socket "a" (its send buffer is never full)
 
 \* a Send whose socket took only part of the data (or nothing): the return function registers the
 \* task for writability again and aborts the resume - the task's generator is NOT resumed
@@ -199,7 +199,7 @@ UserRun(t) ==
                   /\ incoming' = Register(t, now + o.d, "-")
                   /\ Sig(didw, TRUE)
                   /\ UNCHANGED <<alive, subpc, hasQuit>>
-              [] o.op \in {"SelFD", "Recv"} ->
+              [] o.op \in {"SelFD", "Recv", "SelW"} ->       \* SelW: Select for WRITING on the socket behind fd "a" (hub fd "wa")
                   /\ ready' = rest /\ res' = res1
                   /\ incoming' = Register(t, IF o.d = NoTO THEN NoTO ELSE now + o.d, o.fd)
                   /\ Sig(didw, TRUE)
